@@ -28,6 +28,12 @@ def deployments(tier):
             agents = [f"a{i}" for i in range(4)]
             mapping = {f"a{i}": [f"v{i}"] for i in range(4)}
             out.append({"name": f"{name}-4agents-k{k}", "spec": spec, "agents": agents, "mapping": mapping, "k": k, "algo": "adsa", "params": {"period": 0.5}})
+        # a0 hosts TWO computations, both replicated on a1 and a2 (the only agents UCS reaches); hosting costs make the repair split
+        # them (v0 -> a1, v1 -> a2): each of the two agents is candidate for both orphans and selected for one only
+        agents = [f"a{i}" for i in range(5)]
+        out.append({"name": f"{name}-5agents-k2-split", "spec": spec, "agents": agents, "mapping": {"a0": ["v0", "v1"], "a1": ["v2"], "a2": ["v3"], "a3": [], "a4": []},
+                    "k": 2, "algo": "adsa", "params": {"period": 0.5},
+                    "hosting": {"a1": {"v1": 10}, "a2": {"v0": 10}}, "only_removed": [["a0"]]})
         if not q:
             agents = [f"a{i}" for i in range(5)]
             mapping = {"a0": ["v0", "v1"], "a1": ["v2"], "a2": ["v3"], "a3": [], "a4": []}
@@ -42,6 +48,8 @@ def jobs_for(tier):
         hosts = [a for a in dep["agents"]]
         for r in range(1, dep["k"] + 1):
             for removed in itertools.combinations(hosts, r):
+                if tier == "quick" and "only_removed" in dep and list(removed) not in dep["only_removed"]:
+                    continue
                 out.append(dict(dep, removed=list(removed), events=[list(removed)]))
     # two successive events (each within k): the second one removes any of the survivors, in particular the new host
     for dep in deployments(tier):
@@ -140,7 +148,7 @@ def scenario_for(job, probe, draws=()):
         probe.install()
         try:
             spec = job["spec"]
-            dcop = rt_common.make_dcop(spec, job["agents"])
+            dcop = rt_common.make_dcop(spec, job["agents"], hosting=job.get("hosting"))
             cg = importlib.import_module("pydcop.computations_graph." + algo_module.GRAPH_TYPE).build_computation_graph(dcop)
             algo = AlgorithmDef.build_with_default_param(job["algo"], dict(job["params"]), mode=spec["mode"])
             dist = Distribution({a: list(cs) for a, cs in job["mapping"].items()})
@@ -161,6 +169,8 @@ def scenario_for(job, probe, draws=()):
                     a.name: sorted(c.name for c in a.computations()) for a in probe.agents if a.is_running and a.name not in job["removed"]
                 }
                 snap["removed_still_running"] = [a.name for a in probe.agents if a.name in job["removed"] and a.is_running]
+                # a hosted computation that was never started does not run anywhere ("runs on exactly one live agent")
+                snap["never_started"] = sorted(c.name for a in probe.agents if a.is_running and a.name not in job["removed"] for c in a.computations() if c.name in comps and not c.is_running)
                 snap["clock"] = thrx.cur().clock
 
             obs = thrx.VThread(target=observer, name="observer", daemon=True)
@@ -210,6 +220,8 @@ def judge(job, tag, choices, draws, result, outcome, part, files):
             problems.append((kind, c, h, actual))
         if before["hosts"].get(c) in job["events"][-1] and isinstance(h, str) and h not in before["replicas"].get(c, []) and not h.startswith("<"):
             problems.append(("new-host-held-no-replica", c, h, before["replicas"].get(c)))
+        if c in snap.get("never_started", ()):
+            problems.append(("hosted-but-never-started", c, h, actual))
     status = result["repairs"][-1]
     fstatus = files.get("status")
     if problems:
